@@ -106,6 +106,9 @@ where
     let su = mu.scale.clone().unwrap();
     let specs: [(usize, Option<usize>, Option<usize>); 5] = [(0, None, None), (3, Some(8), Some(3)), (21, Some(20), Some(0)), (0, None, Some(20)), (29, Some(40), Some(18))];
     let long = fmtgrid::long_specs(thorough());
+    let n_units = b.n();
+    let wide = if thorough() { n_units <= 30 } else { n_units <= 24 };
+    let r0 = b.tm.ref_index().unwrap_or(0);
     for &a in &t {
         rep.inc("states");
         let ar = rat_of(a);
@@ -127,6 +130,11 @@ where
             outcome(rep, r, fit_ok, "C18/fit-panics", || case(key, "_fit", json!({"amount": amt::show(a)})));
         }
         for iv in 0..b.n() {
+            // types with more than 24 (thorough: 30) units: the second unit ranges over the first one, the reference
+            // unit, the neighbour, the smallest and the largest instead of all units
+            if !wide && !(iv == iu || iv == r0 || iv == (iu + 1) % n_units || iv == 0 || iv == n_units - 1) {
+                continue;
+            }
             let (uv, mv) = (b.units[iv], b.um(iv));
             let sv = mv.scale.clone().unwrap();
             // conversion
